@@ -17,7 +17,7 @@ FILES = [MA, EXPR, RPOW, MG]
 
 EXPLANATION = (
     "(D1) abstract interpretation (AI-SHAPE, sa/shapes.py) of the bodies of MathArray.__add__/__radd__/__sub__/__rsub__/"
-    "__mul__/__rmul__/__truediv__/__rtruediv__/__pow__/__rpow__, the five in-place forms and robust_pow over operand "
+    "__mul__/__rmul__/__truediv__/__rtruediv__/__pow__/__rpow__, the five in-place forms (which must return the new value and never store into self) and robust_pow over operand "
     "descriptors (number classes 0 / int / integer-valued float / non-integer / negative / complex; vectors n and m, "
     "matrices nxn (regular and singular), mxm, nxm, mxn, 1xn, nx1, tensors; size-1 arrays; foreign objects) under Python's "
     "operator dispatch with a model table for ndarray's elementwise methods, np.dot and np.linalg.matrix_power; the "
@@ -50,6 +50,7 @@ def check(ctx):
     idx = ctx.index
     flag_attr = d3_negative_powers(ctx, idx)
     d1_table(ctx, idx, flag_attr)
+    d1_inplace(ctx, idx)
     d2_product(ctx, idx, flag_attr)
     d2_array(ctx, idx)
     d4_cast(ctx, idx, flag_attr)
@@ -209,6 +210,9 @@ def events_text(outcome):
             out.append('matrix_power(exponent %r)' % (e['exp'].v,))
         elif e['kind'] == 'NPLEFT':
             out.append('numpy scalar on the left of %s: MathArray.__r%s__ bypassed' % (e['op'], e['op']))
+        elif e['kind'] == 'STORE':
+            out.append('the result is written into the left operand, which casts it to that array\'s entry type: an integer array '
+                       'op= a float array is truncated, a real array op= a complex one loses its imaginary part')
     return '; '.join(out) or 'no numpy primitive reached'
 
 
@@ -344,6 +348,50 @@ def d1_table(ctx, idx, flag_attr):
                                       ('number %s' % S.lf_show(exp.val) if exp.number else
                                        'array of shape (%s) with value %s' % (','.join(map(str, exp.shape)), S.lf_show(exp.val)))),
                             found=found)
+
+
+def d1_inplace(ctx, idx):
+    r = ctx.rule('D1.INPLACE', 'the in-place operators return the (new) value of the binary operation and never write into self', floor=5)
+    with r:
+        ci = idx.cls(AQ)
+        for op in ('add', 'sub', 'mul', 'truediv', 'pow'):
+            name = '__i%s__' % op
+            fi = ci.methods.get(name)
+            construct = 'MathArray.%s: no store into self' % name
+            if fi is None:
+                # falls back to ndarray's in-place method: judged by D1.TABLE (numpy broadcasts in place)
+                r.ok(construct, 'not defined (ndarray\'s method applies, see D1.TABLE)', ci.loc, nontrivial=False)
+                continue
+            selfp = fi.params[0]
+            bad = None
+            for n in walk_own(fi.node):
+                if isinstance(n, (ast.Assign, ast.AugAssign)):
+                    tgts = n.targets if isinstance(n, ast.Assign) else [n.target]
+                    for t in tgts:
+                        if isinstance(t, (ast.Subscript, ast.Attribute)) and isinstance(t.value, ast.Name) and t.value.id == selfp:
+                            bad = (n, 'stores into %s (`%s`)' % (selfp, short(n)))
+                        if isinstance(n, ast.AugAssign) and isinstance(t, ast.Name) and t.id == selfp:
+                            bad = (n, 'updates %s in place (`%s`)' % (selfp, short(n)))
+                elif isinstance(n, ast.Call):
+                    cn = nf.callee_name(n)
+                    if cn in ('copyto', 'put', 'place', 'putmask') and n.args and isinstance(n.args[0], ast.Name) and n.args[0].id == selfp:
+                        bad = (n, 'copies the result into %s (`%s`)' % (selfp, short(n)))
+                    if cn in ('fill', 'itemset', '__setitem__', '__iadd__', '__isub__', '__imul__', '__itruediv__') \
+                            and isinstance(n.func, ast.Attribute) and isinstance(n.func.value, ast.Name) and n.func.value.id == selfp \
+                            and cn != name:
+                        bad = (n, 'calls %s.%s(...)' % (selfp, cn))
+                    for k in n.keywords:
+                        if k.arg == 'out' and isinstance(k.value, ast.Name) and k.value.id == selfp:
+                            bad = (n, 'computes with out=%s (`%s`)' % (selfp, short(n)))
+                elif isinstance(n, ast.Return) and isinstance(n.value, ast.Name) and n.value.id == selfp and bad is None:
+                    bad = (n, 'returns %s itself' % selfp)
+            if bad is None:
+                r.ok(construct, 'returns a new object', fi.loc)
+            else:
+                r.violation(construct, 'the in-place operator %s: the value is forced into the entry type and shape of the left operand '
+                            '(an integer array %s= a float array is truncated, a real array %s= a complex one loses its imaginary part) '
+                            'instead of being the value of `self %s other`' % (bad[1], SYM[op], SYM[op], SYM[op]), lib.loc(fi, bad[0]),
+                            expected='return self.__%s__(other)' % op, found=short(bad[0]))
 
 
 # ----------------------------------------------------------------------------- D2: eval_product
@@ -857,6 +905,12 @@ MUTANTS = [
            "        integer_like = (isinstance(exponent, int) or isinstance(exponent, float)\n                        and abs(exponent - np.round(exponent)) < 1e-12)", 'D1'),
     Mutant('integrality-by-builtin-round', MA, "        integer_like = (isinstance(exponent, int) or\n                        isinstance(exponent, float) and exponent.is_integer())",
            "        integer_like = (isinstance(exponent, int) or isinstance(exponent, float)\n                        and abs(exponent - round(exponent)) <= 1e-9)", 'D1'),
+    Mutant('seeded-C14d-inplace-stores-into-self', MA, "    def __iadd__(self, other):\n        return self.__add__(other)",
+           "    def __iadd__(self, other):\n        self[...] = self.__add__(other)\n        return self", 'D1'),
+    Mutant('inplace-division-slice-store', MA, "    def __itruediv__(self, other):\n        return self.__truediv__(other)",
+           "    def __itruediv__(self, other):\n        self[:] = self.__truediv__(other)\n        return self", 'D1'),
+    Mutant('inplace-sub-copyto', MA, "    def __isub__(self, other):\n        return self.__sub__(other)",
+           "    def __isub__(self, other):\n        np.copyto(self, self.__sub__(other))\n        return self", 'D1'),
     Mutant('eval-product-cast-only-after-division', EXPR, "            # Need to cast np numerics as builtins here (in addition to during\n            # eval_node) because the result is changing shape\n            result = cast_np_numeric_as_builtin(result)",
            "            if op == '/':\n                result = cast_np_numeric_as_builtin(result)", 'D4'),
 ]
